@@ -484,6 +484,13 @@ def c_copy(h):
         h.ensure("C06.copy.outputs", u.seteq(u.mem(res.attrs["outputvars"]), u.mem(c.attrs["outputvars"])))
         h.ensure("C06.copy.assumptions_same", u.sat(res.attrs["a"]) == u.sat(c.attrs["a"]))
         h.ensure("C06.copy.guarantees_same_under_assumptions", z3.Implies(u.sat(c.attrs["a"]), u.sat(res.attrs["g"]) == u.sat(c.attrs["g"])))
+        # C19: a copy is EQUAL to its original - the same constraints, not merely equivalent ones: nothing is simplified again
+        # (simplification is not idempotent under LP round-off: the pinned tree's copy() could drop a guarantee its original kept)
+        ra, rg = u.mem(u.terms_of(res.attrs["a"])), u.mem(u.terms_of(res.attrs["g"]))
+        ca, cg = u.mem(u.terms_of(c.attrs["a"])), u.mem(u.terms_of(c.attrs["g"]))
+        h.ensure("C19.copy.same_assumption_terms", u.forall_t(lambda t: _b(ra(t)) == _b(ca(t))))
+        h.ensure("C19.copy.same_guarantee_terms", u.forall_t(lambda t: _b(rg(t)) == _b(cg(t))))
+        h.check("C19.copy.nothing_is_simplified_again", not [r for r in u.calls if r["op"] == "simplify"], "copy() called simplify")
         _fresh_contract_fields(h, u, res, [c])
     h.frame_ok(out, "C13.frame")
 
